@@ -777,8 +777,19 @@ TOP:
 				}
 			}
 		case method != nil:
-			args := root.formReflectArgs(ov, vars, field)
-			mva := fd.method.Call(args)
+			// The arguments are coerced as for the other strategies so an
+			// omitted, null or mistyped argument is an error or a zero
+			// value and not a panic in the reflect package.
+			argMap, ea2 := root.formArgs(vars, field, fd)
+			if 0 < len(ea2) {
+				return nil, append(ea, ea2...)
+			}
+			var args []reflect.Value
+			if args, err = root.formReflectArgs(ov, method, fd, argMap); err != nil {
+				ea = append(ea, resWarn(field.line, field.col, "%s", err))
+				return
+			}
+			mva := method.Call(args)
 			switch len(mva) {
 			case 1:
 				value = mva[0].Interface()
@@ -795,17 +806,34 @@ TOP:
 	return
 }
 
-func (root *Root) formReflectArgs(ov reflect.Value, vars map[string]interface{}, field *Field) (args []reflect.Value) {
-	args = make([]reflect.Value, 0, len(field.Args)+1)
+func (root *Root) formReflectArgs(
+	ov reflect.Value,
+	method *reflect.Value,
+	fd *FieldDef,
+	argMap map[string]interface{}) (args []reflect.Value, err error) {
+
+	mt := method.Type()
+	args = make([]reflect.Value, 0, fd.args.Len()+1)
 	args = append(args, ov)
-	// Build the args by combining provided args and variable values as
-	// appropriate.
-	for _, av := range field.Args {
-		if vr, ok := av.Value.(Var); ok && vars != nil {
-			args = append(args, reflect.ValueOf(vars[string(vr)]))
-		} else {
-			args = append(args, reflect.ValueOf(av.Value))
+	// One method parameter for each declared argument, in the declared order.
+	for i, a := range fd.args.list {
+		if mt.NumIn() <= i+1 {
+			return nil, fmt.Errorf("%w: %s takes fewer arguments than %s declares", ErrMeta, mt, fd.N)
 		}
+		pt := mt.In(i + 1)
+		v := argMap[a.N]
+		if v == nil {
+			args = append(args, reflect.Zero(pt))
+			continue
+		}
+		rv := reflect.ValueOf(v)
+		if !rv.Type().AssignableTo(pt) {
+			return nil, fmt.Errorf("%w: can not use a %T as argument %s of %s", ErrMeta, v, a.N, fd.N)
+		}
+		args = append(args, rv)
+	}
+	if mt.NumIn() != len(args) {
+		return nil, fmt.Errorf("%w: %s takes more arguments than %s declares", ErrMeta, mt, fd.N)
 	}
 	return
 }
